@@ -476,6 +476,7 @@ class LoopMixin:
         keys, mutated = self._loop_keys(st, body, extra_targets)
         self._cur_mods = set(keys)
         pre = {k: self._read_key(k) for k in keys}
+        self._last_pre = pre
         gens = {}
         self._ljoin_keys = {(id(st), k) for k in keys if k[0] == 'ljoin'}
         for k in keys:
@@ -801,6 +802,22 @@ class LoopMixin:
         keys, gens = self._loop_head(st, st.body, extra_targets=tnames)
         self.event('for-iter', st, iterable=itv)
         elem, ln = self.iter_element(itv, st.iter)
+        # Houdini candidates for a range() loop: an integer that trails the loop variable by a constant on entry keeps doing
+        # so (`last = start + step` ... cursors); checked at the back edge, used at the exit with the element count
+        rng = []
+        if isinstance(itv, RangeV) and isinstance(elem, IntV) and itv.step > 0:
+            pre = getattr(self, '_last_pre', {})
+            lo_ = Lin.of(itv.lo)
+            for k in keys:
+                g, p0 = gens[k].value, self.resolve(pre.get(k)) if pre.get(k) is not None else None
+                if not (isinstance(g, IntV) and isinstance(p0, IntV) and k[0] in ('local', 'attr') and len(g.lin.syms()) == 1):
+                    continue
+                if k[0] == 'local' and k[1] in tnames:
+                    continue
+                d = self.store.canon(p0.lin - lo_)
+                dk = (id(st), k[:2], 'range-offset')
+                if d.is_const() and not self.an.widen.get(dk):
+                    rng.append((dk, k, g, d))
         can_iter = True
         if ln is not None:
             r = self.store.decide_ge0(ln - 1)
@@ -810,6 +827,11 @@ class LoopMixin:
         if can_iter and c == 0:
             if ln is not None:
                 self.store.assume_ge0(ln - 1)
+            for dk, k, g, d in rng:
+                try:
+                    self.store.assume_eq0(g.lin - elem.lin - d)
+                except Exception:
+                    self.an.widen_requests[dk] = 1
             self.assign(st.target, elem, st)
             self.event('loop-iter', st, n='generic', elem=elem, mark=_new_mark())
             try:
@@ -819,8 +841,23 @@ class LoopMixin:
                 return
             except ContinueSig:
                 pass
+            for dk, k, g, d in rng:
+                nv = self.resolve(self._read_key(k))
+                if not (isinstance(nv, IntV) and self.store.decide_eq0(nv.lin - elem.lin - Lin.const(itv.step) - d) is True):
+                    self.an.widen_requests[dk] = 1
             self._loop_back(st, keys, gens)
         else:
+            if rng:
+                # all elements were visited: the trailing integers stand where the loop variable would stand next
+                cnt = self.range_count(itv) if itv.step != 1 else None
+                if itv.step == 1:
+                    span = Lin.of(itv.hi) - Lin.of(itv.lo)
+                    cnt = span if self.decide_ge0(span) else Lin.const(0)
+                for dk, k, g, d in rng:
+                    try:
+                        self.store.assume_eq0(g.lin - Lin.of(itv.lo) - cnt.scale(itv.step) - d)
+                    except Exception:
+                        pass
             self.event('loop-exit', st, how='exhausted')
             self.exec_block(st.orelse)
 
